@@ -18,6 +18,9 @@
 (*     Near-normalised inputs (total within 1e-5 of 1 but not 1: integer weights over 10^6  *)
 (*     or 2^17) are instances whose field OPS restricts the chains to the operations whose   *)
 (*     exact arithmetic stays inside 30 bits (marg, mix, norm, expect).                      *)
+(*     Fibre family (field FIBK = image sizes): the marg menu is every surjection of the     *)
+(*     support onto 1..k, enumerated by TLC, so that every kind meets projections with fibres *)
+(*     of unequal sizes for every (support size, image size).                                 *)
 (* (O) exact oracle: the laws at the bottom of the module (each written independently of  *)
 (*     the fold that computes the operation) + the expected measure after every step.    *)
 (* (R) reference machine: one action per operation of the code, shaped like the code     *)
@@ -131,7 +134,15 @@ Expect(D, g) == RSumTo([i \in 1..Len(D.ev) |-> RMulC(<<g[i], 1>>, D.p[i])], Len(
 
 \* ------------------------------------------------------------------ arguments from the instance menus
 \* functions over the support = tables aligned with the support of the pre-state D
-ArgF(m, D, j) == [i \in 1..Len(D.ev) |-> <<At(m.F[j], i)>>]            \* projection: target atoms
+\* projection: target atoms.  In the fibre family (m.FIBK non-empty) the menu entry j IS the projection table
+\* (a surjection 1..n -> 1..k enumerated by TLC, see FibMenu); otherwise j indexes the menu m.F
+IsFib(m) == Len(m.FIBK) > 0
+ArgF(m, D, j) == IF IsFib(m) THEN [i \in 1..Len(D.ev) |-> <<j[i]>>]
+                 ELSE [i \in 1..Len(D.ev) |-> <<At(m.F[j], i)>>]
+\* every surjection of the support positions onto 1..k, for every image size k the instance lists: all ways
+\* of merging n events into k groups, fibres of equal and of unequal sizes alike
+Surj(nn, k) == {f \in [1..nn -> 1..k] : \A y \in 1..k : \E i \in 1..nn : f[i] = y}
+FibMenu(m, D) == UNION {Surj(Len(D.ev), k) : k \in {x \in 1..Len(D.ev) : x \in Range(m.FIBK)}}
 ArgK(m, D, j) == [i \in 1..Len(D.ev) |-> DistOf(At(m.K[j], i))]        \* kernel
 ArgL(m, D, j) == [i \in 1..Len(D.ev) |-> Norm(At(m.L[j], i)[1], At(m.L[j], i)[2])]   \* likelihood
 ArgG(m, D, j) == [i \in 1..Len(D.ev) |-> At(m.G[j], i)]                \* real function (integers)
@@ -140,8 +151,8 @@ MixA(m, j) == Norm(m.MX[j].an, m.MX[j].ad)
 MixB(m, j) == Norm(m.MX[j].bn, m.MX[j].bd)
 
 Ops == {"marg", "chain", "cond", "joint", "mix", "and", "norm", "expect", "shift"}
-Menu(m, op) ==
-  IF op = "marg" THEN 1..Len(m.F) ELSE IF op = "chain" THEN 1..Len(m.K)
+Menu(m, D, op) ==
+  IF op = "marg" THEN (IF IsFib(m) THEN FibMenu(m, D) ELSE 1..Len(m.F)) ELSE IF op = "chain" THEN 1..Len(m.K)
   ELSE IF op = "cond" THEN 1..Len(m.L) ELSE IF op = "joint" THEN 1..Len(m.O)
   ELSE IF op = "mix" THEN 1..Len(m.MX) ELSE IF op = "and" THEN 1..Len(m.O)
   ELSE IF op = "norm" THEN {1} ELSE IF op = "expect" THEN 1..Len(m.G)
@@ -200,7 +211,7 @@ Step(op, j) ==
 \* pipeline A / MC: every chain of DEPTH operations
 Op ==
   /\ Mode = "mc" /\ phase = "run" /\ n < M.DEPTH
-  /\ \E op \in {o \in Ops : o \in Range(M.OPS)} : \E j \in Menu(M, op) : Step(op, j)   \* OPS: operations of the family
+  /\ \E op \in {o \in Ops : o \in Range(M.OPS)} : \E j \in Menu(M, cur, op) : Step(op, j)   \* OPS: operations of the family
   /\ UNCHANGED <<iid, l, phase>>
 \* MC only: a draw of sample() as an action of the model (bounded: one draw ends the behaviour)
 Sample ==
